@@ -24,9 +24,9 @@ from .util import mix, cjson, digest, h64
 VERIF = os.path.dirname(os.path.dirname(os.path.abspath(__file__)))
 
 
-class Violation(Exception):
+class Violation(BaseException):
     def __init__(self, prop, invariant, cause_key, detail=None):
-        Exception.__init__(self, "%s %s %s" % (prop, invariant, cause_key))
+        BaseException.__init__(self, "%s %s %s" % (prop, invariant, cause_key))
         self.prop = prop
         self.invariant = invariant
         self.cause_key = cause_key
@@ -283,6 +283,11 @@ def case_for(prop, tier, seed, idx):
                 o["pre"] = [rng.choice(["garbage", "empty", "wrong-type"])]
             elif r < 0.28:
                 o["pre"] = ["peek", rng.choice(["garbage", "wrong-type"])]
+    if case["machine"] in ("M-CI", "M-IM", "M-RP", "M-MO", "M-XF"):
+        # one restart in ten goes through a document the caller parsed itself (deserialize(), twice from one mapping)
+        for o in case["ops"]:
+            if o.get("op") == "restart" and o.get("via") in ("loads", "handle") and "pre" not in o and rng.random() < 0.2:
+                o["via"] = "parsed"
     if case["machine"] != "M-CD" and "cwd" not in case["cfg"] and rng.random() < 0.1:
         # the tool runs INSIDE the directory that holds the metadata: every file there is addressed by a relative path
         case["cfg"]["cwd"] = "/sim/d"
